@@ -12,7 +12,7 @@ Case shape (self-contained, JSON):
      | ["repeat", E, k] | ["power", E, k] | ["choice", [[E, [m, e]], ...], limit|null]
      | ["cond", pred, E, E] | ["until", E, n]            pred := ["lenGt", k] | ["always"] | ["never"]
   prims in the Lean model: mutUniform mutSwap selRandom selSample selTop selBottom selFirst selLast
-     recUniform recSample recKPoint recSegmented recOrder recAverage recWeightedAverage; oracle-only prims (run on the real code, property
+     recUniform recSample recKPoint recSegmented recOrder recAverage recWeightedAverage selProportional; oracle-only prims (run on the real code, property
      oracle only, no model prediction): see ORACLE_ONLY.
 
 Recorded-oracle technique: every `random.Random` owned by an operator of the expression is replaced
@@ -29,9 +29,9 @@ from harness.common.framework import Prop
 
 MODEL_PRIMS = ['mutUniform', 'mutSwap', 'selRandom', 'selSample', 'selTop', 'selBottom', 'selFirst',
                'selLast', 'recUniform', 'recSample', 'recKPoint', 'recSegmented', 'recOrder', 'recAverage',
-               'recWeightedAverage']
+               'recWeightedAverage', 'selProportional']
 ORACLE_ONLY = ['recPartiallyMapped', 'recCycle',
-               'selProportional', 'selTopCluster', 'selBottomCluster', 'nsga2SortPipeline',
+               'selTopCluster', 'selBottomCluster', 'nsga2SortPipeline',
                'lambdaDrop1', 'lambdaReverse', 'forEachFlatten']
 SELECTORS = {'Random', 'Sample', 'Proportional', 'Top', 'Bottom', 'First', 'Last'}
 
@@ -158,6 +158,23 @@ def spec_stats(spec):
   return st
 
 
+WEIGHT_POOL = [[0, 0], [0, 0], [1, 0], [1, 0], [1, 0], [2, 0], [1, 6], [1, 3], [5, 2], [3, 1],
+               ratio(0.1), ratio(0.02), ratio(0.7), [7, 0]]
+
+
+def gen_weights(rng):
+  """Weights for Proportional (applied cyclically to the inputs): tiny, zero, equal and ordinary ones."""
+  k = rng.below(6)
+  n = rng.randint(1, 7)
+  if k == 0:
+    return [rng.choice([[1, 0], [1, 0], [5, 2]])] * n                   # all equal
+  if k == 1:
+    return rng.shuffle([rng.choice([ratio(0.1), ratio(0.02), [1, 6]])] + [[1, 0]] * (n - 1))   # one tiny among equals
+  if k == 2:
+    return rng.shuffle([[0, 0]] * rng.randint(1, 2) + [rng.choice(WEIGHT_POOL) for _ in range(n)])
+  return [rng.choice(WEIGHT_POOL) for _ in range(n)]
+
+
 class ExprGen:
   """Operator expressions from the combinator grammar (depth <= 4), mostly well-typed:
   `fit` tracks whether every element still carries a reward (Top/Bottom need it), segment-wise
@@ -177,12 +194,14 @@ class ExprGen:
 
   def selector(self, fit):
     r = self.rng
-    names = ['selRandom', 'selRandom', 'selSample', 'selFirst', 'selLast']
+    names = ['selRandom', 'selRandom', 'selSample', 'selFirst', 'selLast', 'selProportional']
     if fit or self.sloppy:
       names += ['selTop', 'selTop', 'selBottom']
     n = r.choice(names)
     if n == 'selRandom':
       return ['prim', n, self.nspec(), r.chance(0.35)]
+    if n == 'selProportional':
+      return ['prim', n, self.nspec(), gen_weights(r)]
     return ['prim', n, self.nspec()]
 
   def two_parents(self, fit):
@@ -234,10 +253,10 @@ class ExprGen:
     if k == 'leaf':
       return self.expr(0, fit)
     if k == 'oo':
-      n = r.choice(['selProportional', 'selTopCluster', 'selBottomCluster', 'nsga2SortPipeline',
+      n = r.choice(['selTopCluster', 'selBottomCluster', 'nsga2SortPipeline',
                     'lambdaDrop1', 'lambdaReverse', 'forEachFlatten'])
-      if n in ('selTopCluster', 'selBottomCluster', 'selProportional'):
-        if not fit and n != 'selProportional':
+      if n in ('selTopCluster', 'selBottomCluster'):
+        if not fit:
           return ['prim', 'selFirst', 2], fit
         return ['prim', n, self.nspec()], fit
       if n.startswith('nsga2') and not fit:
@@ -309,6 +328,15 @@ def expr_prims(e, acc=None):
       if isinstance(x, list) and x and isinstance(x[0], str) and x[0] in EXPR_HEADS:
         expr_prims(x, acc)
   return acc
+
+
+def has_inexact_weights(e):
+  """Proportional computes `int(n * w / sum + 0.5)` in floating point; the model computes it exactly.
+  With weights such as 0.7 an exact tie (x.5) is missed by the float computation, so expressions with
+  weights that are not small dyadic numbers have no model part (the count law is still checked)."""
+  if e[0] == 'prim':
+    return e[1] == 'selProportional' and any(q[1] > 8 for q in e[3])
+  return any(has_inexact_weights(x) for x in sub_exprs(e))
 
 
 EXPR_HEADS = {'prim', 'identity', 'seq', 'concat', 'union', 'inter', 'diff', 'symdiff', 'inv', 'slice',
@@ -441,7 +469,11 @@ class C14(Prop):
           '0-7 valid DNAs with rewards (ties included), operator expressions from the combinator grammar '
           'to depth 4 (mostly well-typed: reward-hungry selectors only where rewards survive, segment-wise '
           'recombinators fed two parents; ~12 % sloppy expressions for the error paths; ~15 % expressions '
-          'with oracle-only primitives, which have no model part). Non-trivial: the expression returns '
+          'with oracle-only primitives, which have no model part); a stream of constrained multi-choices with 4-7 '
+          'conflicting parents (retry / last-resort paths of _merge_multi_choice, measured per run); Proportional '
+          'with tiny / zero / equal weights and fractional n; a driver-level stream (Evolution, regularized_evolution, '
+          'hill_climb, nsga2 for 8-14 propose/feedback rounds with pass-through reproduction stages: no evaluated '
+          'DNA object may change or be proposed again). Non-trivial: the expression returns '
           'normally, the population is non-empty and at least one primitive of the expression made a PRNG '
           'draw or produced a new DNA; distinct: by (spec, population, expression, seed).')
   trusted_base = [
@@ -471,6 +503,24 @@ class C14(Prop):
     n = 420 if tier == "quick" else 6000
     for i in range(n):
       yield self.gen_case(rng)
+    # the driver level: Evolution and the shipped algorithms with pass-through reproduction stages
+    for i in range(40 if tier == 'quick' else 400):
+      yield self.gen_evolve_case(rng.fork())
+    # constrained multi-choices with many conflicting parents: the retry and last-resort paths of
+    # `_merge_multi_choice` (about one case in eight exhausts the 8 attempts)
+    for i in range(90 if tier == 'quick' else 900):
+      r = rng.fork()
+      ncand = r.randint(4, 6)
+      k = r.randint(3, min(4, ncand))
+      distinct, srt = r.choice([(True, True), (True, True), (True, False), (False, True)])
+      multi = ['choices', k, [_C0] * ncand, distinct, srt]
+      spec = ['space', [multi] + ([gen_point(r, 0)] if r.chance(0.3) else [])]
+      if r.chance(0.25):
+        spec = ['space', [['choices', 1, [['space', [multi]], _C0], True, False]]]
+      pop = [{'nums': gen_dna(r, spec), 'fit': r.randint(-3, 6)} for _ in range(r.randint(4, 7))]
+      e = r.choice([['prim', 'recUniform'], ['prim', 'recSample'],
+                    ['repeat', ['prim', 'recUniform'], 2], ['seq', ['prim', 'recSample'], ['prim', 'mutUniform']]])
+      yield {'spec': spec, 'pop': pop, 'expr': e, 'seed': r.below(1 << 30)}
     # every modelled primitive alone on a small fixed family
     for spec in FIXED_SPECS:
       for prim in FIXED_PRIMS:
@@ -479,6 +529,47 @@ class C14(Prop):
         if prim[1] in ('recKPoint', 'recSegmented', 'recOrder'):
           pop = pop[:2]
         yield {'spec': spec, 'pop': pop, 'expr': prim, 'seed': r.below(1 << 30)}
+
+  def gen_evolve_case(self, r):
+    spec = gen_root(r, r.weighted([(3, 0), (3, 1)]))
+
+    def stage():
+      k = r.weighted([(3, 'mut'), (2, 'swap'), (2, 'identity'), (3, 'prob0'), (2, 'never'), (2, 'prob-half'),
+                      (1, 'if-len')])
+      mut = ['prim', 'mutUniform']
+      if k == 'mut':
+        return mut
+      if k == 'swap':
+        return ['prim', 'mutSwap']
+      if k == 'identity':
+        return ['identity']
+      if k == 'prob0':
+        return ['choice', [[mut, [0, 0]]], None]                 # Uniform().with_prob(0.0)
+      if k == 'prob-half':
+        return ['choice', [[mut, [1, 1]]], None]
+      if k == 'never':
+        return ['cond', ['never'], mut, ['identity']]            # Uniform().if_true(lambda x: False)
+      return ['cond', ['lenGt', r.choice([0, 1, 3])], mut, ['identity']]
+    kind = r.weighted([(3, 'evolution'), (3, 'regularized'), (2, 'hill_climb'), (4, 'nsga2')])
+    if kind == 'evolution':
+      n0 = r.randint(2, 4)
+      sel = r.choice([['prim', 'selRandom', 2, False], ['prim', 'selTop', 1], ['prim', 'selLast', 2],
+                      ['seq', ['prim', 'selRandom', 3, False], ['prim', 'selTop', 1]]])
+      rep = ['seq', sel, stage()]
+      if r.chance(0.3):
+        rep = ['seq', ['seq', ['prim', 'selTop', 2], ['prim', 'recUniform']], stage()]
+      upd = r.choice([None, ['prim', 'selLast', n0 + 1], ['prim', 'selTop', n0]])
+      algo = ['evolution', rep, n0, upd]
+    elif kind == 'regularized':
+      p = r.randint(2, 4)
+      algo = ['regularized', stage(), p, r.randint(2, p)]
+    elif kind == 'hill_climb':
+      algo = ['hill_climb', stage(), r.randint(1, 2), r.randint(1, 2)]
+    else:
+      algo = ['nsga2', stage(), r.randint(2, 3)]
+    return {'kind': 'evolve', 'spec': spec, 'algo': algo, 'rounds': r.randint(8, 14),
+            'rewards': [r.randint(-3, 6) for _ in range(7)], 'seed': r.below(1 << 30),
+            'pop': [], 'expr': ['identity']}
 
   def gen_case(self, rng):
     r = rng.fork()
@@ -580,7 +671,8 @@ class C14(Prop):
         from pyglove.ext.evolution import where
         return cls(where=where.Any(), seed=seed())
       if name == 'selProportional':
-        return selectors.Proportional(nval(e[2]), weights=weights)
+        ws = [unratio(q) for q in e[3]]
+        return selectors.Proportional(nval(e[2]), weights=lambda xs: [ws[i % len(ws)] for i in range(len(xs))])
       if name == 'selTopCluster':
         return selectors.Top(nval(e[2]), cluster=True)
       if name == 'selBottomCluster':
@@ -766,6 +858,34 @@ class C14(Prop):
       return res
 
     base.Operation.__call__ = spy
+    from pyglove.ext.evolution import recombinators as _rec
+    orig_mm = _rec._merge_multi_choice            # pylint: disable=protected-access
+    mm_paths = []
+
+    def mm_spy(decision_point, parent_decisions, weights, rand, max_rearrange_attempts=8):
+      # which path of `_merge_multi_choice` is taken: every subchoice accepted at once ('direct'),
+      # after rejected draws ('retry'), or the last resort after 8 rejected draws ('fallback')
+      draws = []
+
+      class Proxy:
+        def choices(self, population, weights=None, *, cum_weights=None, k=1):    # pylint: disable=redefined-outer-name
+          r = rand.choices(population, weights=weights, cum_weights=cum_weights, k=k)
+          draws.append(r[0])
+          return r
+      res = orig_mm(decision_point, parent_decisions, weights, Proxy(), max_rearrange_attempts)
+      index, attempts, results = 0, 0, []
+      for d in draws:
+        if index == decision_point.num_choices or attempts >= max_rearrange_attempts:
+          break
+        if ((not decision_point.distinct or d not in results)
+            and (not decision_point.sorted or not results or d >= results[-1])):
+          results.append(d)
+          index += 1
+        else:
+          attempts += 1
+      mm_paths.append('fallback' if attempts >= max_rearrange_attempts else 'retry' if attempts else 'direct')
+      return res
+    _rec._merge_multi_choice = mm_spy             # pylint: disable=protected-access
     try:
       try:
         out = op(pop_arg)
@@ -773,8 +893,9 @@ class C14(Prop):
         err = type(ex).__name__
     finally:
       base.Operation.__call__ = orig_call
+      _rec._merge_multi_choice = orig_mm          # pylint: disable=protected-access
     return {'spec': spec, 'pop': pop, 'pop_arg': pop_arg, 'before': before, 'ids': ids, 'log': log,
-            'calls': calls, 'out': out, 'err': err, 'unseeded': unseeded}
+            'calls': calls, 'out': out, 'err': err, 'unseeded': unseeded, 'mm_paths': mm_paths}
 
   def canon_out(self, run):
     if run['err'] is not None:
@@ -837,6 +958,8 @@ class C14(Prop):
 
   def impl(self, case):
     import pyglove as pg
+    if case.get('kind') == 'evolve':
+      return self.impl_evolve(case)
     self._verdicts = {}      # per run; the objects are kept alive by `run`
     run = self.run_once(case, hook=True)
     spec = run['spec']
@@ -936,7 +1059,100 @@ class C14(Prop):
                 'differ: %s vs %s' % (json.dumps(model)[:300], json.dumps(model2)[:300]))
     has_oo = any(p not in MODEL_PRIMS for p in prims)
     return {'model': None if has_oo else model, 'obs': model, 'oracle': run['log'], 'checks': checks,
-            'tainted': tainted, 'n_calls': len(run['calls']), 'n_draws': len(run['log'])}
+            'tainted': tainted, 'n_calls': len(run['calls']), 'n_draws': len(run['log']),
+            'mm_paths': run['mm_paths']}
+
+  # -- the driver level: pg.evolution.Evolution and the shipped algorithms ----------------------
+  def build_algo(self, case, log):
+    import importlib
+    from pyglove.ext.evolution import base
+    import pyglove as pg
+    a = case['algo']
+    ctx = {'seed': case.get('seed', 0), 'log': log, 'n': 0}
+    sd = case.get('seed', 0) % (1 << 30)
+    if a[0] == 'evolution':
+      rep = self.build_expr(a[1], ctx)
+      upd = None if a[3] is None else self.build_expr(a[3], ctx)
+      algo = base.Evolution(rep, population_init=(pg.geno.Random(seed=sd), a[2]), population_update=upd)
+    elif a[0] == 'regularized':
+      m = importlib.import_module('pyglove.ext.evolution.regularized_evolution')
+      algo = m.regularized_evolution(self.build_expr(a[1], ctx), population_size=a[2], tournament_size=a[3], seed=sd)
+    elif a[0] == 'hill_climb':
+      m = importlib.import_module('pyglove.ext.evolution.hill_climb')
+      algo = m.hill_climb(self.build_expr(a[1], ctx), batch_size=a[2], init_population_size=a[3], seed=sd)
+    elif a[0] == 'nsga2':
+      m = importlib.import_module('pyglove.ext.evolution.nsga2')
+      algo = m.nsga2(self.build_expr(a[1], ctx), population_size=a[2], seed=sd)
+    else:
+      raise ValueError('unknown algorithm %r' % (a,))
+    return algo
+
+  def run_evolve(self, case, gseed):
+    """propose / feedback rounds. Returns (observations, failures)."""
+    import pyglove as pg
+    log = []
+    spec = self.cached_spec(case['spec'])
+    algo = self.build_algo(case, log)
+    for name in ('reproduction', 'population_update'):
+      op = algo.sym_getattr(name)
+      if op is not None:
+        self.install_recorders(op, log)
+    _pyrandom.seed(1000003 * gseed + 29)
+    algo.setup(spec)
+    multi = case['algo'][0] == 'nsga2'
+    fails = []
+    proposed = []          # every DNA object ever proposed (kept alive: identities stay unique)
+    evaluated = []         # (object, JSON with metadata right after its feedback)
+    trace = []
+    err = None
+
+    def check_evaluated(when):
+      for i, (obj, snap) in enumerate(evaluated):
+        now = pg.to_json_str(obj)
+        if now != snap:
+          fails.append({'signature': 'evolve:evaluated-dna-modified',
+                        'what': '%s: the DNA evaluated as trial %d was modified afterwards: %s -> %s' % (
+                            when, i + 1, snap, now)})
+          evaluated[i] = (obj, now)
+    try:
+      for t in range(case['rounds']):
+        dna = algo.propose()
+        check_evaluated('propose #%d' % (t + 1))
+        if any(dna is d for d in proposed):
+          fails.append({'signature': 'evolve:re-proposed-object',
+                        'what': 'propose #%d returned the very object of an earlier proposal (%r)' % (t + 1, dna)})
+        proposed.append(dna)
+        try:
+          spec.validate(dna)
+        except Exception as ex:     # pylint: disable=broad-except
+          fails.append({'signature': 'evolve:invalid-proposal', 'what': 'proposal %r: %s' % (dna, ex)})
+        r = case['rewards'][t % len(case['rewards'])]
+        reward = (r / 4.0, -((r * 7 + t) % 5) / 2.0) if multi else r / 4.0
+        algo.feedback(dna, reward)
+        check_evaluated('feedback #%d' % (t + 1))
+        evaluated.append((dna, pg.to_json_str(dna)))
+        nums, _ = self.flat(dna)
+        trace.append([nums, dna.metadata.get('proposal_id'), dna.metadata.get('generation_id')])
+    except Exception as ex:       # pylint: disable=broad-except
+      err = type(ex).__name__
+    return {'trace': trace, 'err': err, 'draws': len(log)}, fails
+
+  def impl_evolve(self, case):
+    obs, fails = self.run_evolve(case, 1)
+    obs2, _ = self.run_evolve(case, 2)
+    if obs2 != obs:
+      fails.append({'signature': 'evolve:nondeterministic',
+                    'what': 'two runs of the seeded algorithm differ: %s vs %s' % (
+                        json.dumps(obs)[:300], json.dumps(obs2)[:300])})
+    seen, checks = set(), []
+    for f in fails:
+      if f['signature'] not in seen:
+        seen.add(f['signature'])
+        checks.append(f)
+    return {'model': None, 'obs': {'outcome': 'ok' if obs['err'] is None else 'err', 'err': obs['err'],
+                                   'trace': obs['trace']},
+            'oracle': [], 'checks': checks, 'tainted': False, 'n_calls': 0, 'n_draws': obs['draws'],
+            'mm_paths': []}
 
   @staticmethod
   def bad_cuts(op, spec_json):
@@ -980,6 +1196,8 @@ class C14(Prop):
     return self._memo[key]
 
   def model_request(self, case):
+    if case.get('kind') == 'evolve':
+      return None
     prims = expr_prims(case['expr'])
     if any(p not in MODEL_PRIMS for p in prims):
       return None
@@ -987,8 +1205,10 @@ class C14(Prop):
 
   def model_request_with_impl(self, case, out):
     """The oracle stream fed to the model is the PRNG log recorded by the implementation run."""
+    if case.get('kind') == 'evolve':
+      return None          # the driver level has no model part: property oracle only
     prims = expr_prims(case['expr'])
-    if any(p not in MODEL_PRIMS for p in prims):
+    if any(p not in MODEL_PRIMS for p in prims) or has_inexact_weights(case['expr']):
       return None
     pop = []
     for ind in case['pop']:
@@ -1083,10 +1303,24 @@ class C14(Prop):
     return checks[0] if checks else None
 
   def nontrivial(self, case, out):
+    if case.get('kind') == 'evolve':
+      return out['obs']['outcome'] == 'ok' and len(out['obs']['trace']) > case['algo'][2 if case['algo'][0] != 'hill_climb' else 3]
     return bool(case['pop']) and out['obs']['outcome'] == 'ok' and (out['n_draws'] > 0 or any(
         o.get('id', [''])[0] == 'new' for o in out['obs'].get('out', [])))
 
   def describe(self, case, out):
+    if case.get('kind') == 'evolve':
+      a = case['algo']
+      h = ['evolve:' + a[0], 'evolve-outcome:' + (out['obs']['outcome'] if out['obs']['outcome'] == 'ok'
+                                                    else 'err:' + str(out['obs']['err'])),
+           'evolve-rounds:%d' % len(out['obs']['trace']), 'oracle-only(no model part)']
+      for pname in sorted(set(expr_prims(a[1]))):
+        h.append('evolve-stage-prim:' + pname)
+      if not set(expr_prims(a[1])) & {'mutUniform', 'mutSwap', 'recUniform', 'recSample', 'recKPoint', 'recOrder',
+                                      'recAverage', 'recWeightedAverage', 'recSegmented'} or any(
+                                          x in json.dumps(a[1]) for x in ('"never"', '[0, 0]')):
+        h.append('evolve:pass-through-stage')
+      return h
     h = []
     obs = out['obs']
     h.append('outcome:' + (obs['outcome'] if obs['outcome'] == 'ok' else 'err:' + obs['err']))
@@ -1102,7 +1336,7 @@ class C14(Prop):
     for p in sorted(set(expr_heads(case['expr']))):
       if p != 'prim':
         h.append('comb:' + p)
-    if out.get('model') is None:
+    if out.get('model') is None or has_inexact_weights(case['expr']):
       h.append('oracle-only(no model part)')
     if out.get('tainted'):
       h.append('tainted-by-F21')
@@ -1111,12 +1345,23 @@ class C14(Prop):
       h.append('out:%s' % (n if n < 6 else '6+'))
       if any(o.get('id', [''])[0] == 'new' for o in obs['out']):
         h.append('new-dna')
+    for pth in sorted(set(out.get('mm_paths', []))):
+      h.append('merge_multi_choice:' + pth)
     h.append('draws:%s' % ('0' if out['n_draws'] == 0 else '1-5' if out['n_draws'] <= 5 else '6+'))
     if not self.nontrivial(case, out):
       h.append('trivial')
     return h
 
   def shrink_candidates(self, case):
+    if case.get('kind') == 'evolve':
+      if case['rounds'] > 2:
+        yield dict(case, rounds=case['rounds'] - 1)
+        yield dict(case, rounds=max(2, case['rounds'] // 2))
+      for s in sub_exprs(case['algo'][1]):
+        a = list(case['algo'])
+        a[1] = s
+        yield dict(case, algo=a)
+      return
     e = case['expr']
     for s in sub_exprs(e):
       c = dict(case)
@@ -1230,6 +1475,9 @@ FIXED_PRIMS = [['prim', 'mutUniform'], ['prim', 'mutSwap'], ['prim', 'recUniform
                ['prim', 'selRandom', 2, False], ['prim', 'selRandom', 3, True], ['prim', 'selSample', 2],
                ['prim', 'selTop', 1], ['prim', 'selBottom', ['frac', 1, 1]], ['prim', 'selFirst', 1],
                ['prim', 'selLast', 1], ['power', ['prim', 'mutUniform'], 3],
+               ['prim', 'selProportional', 2, [ratio(0.1), [1, 0], [1, 0], [1, 0]]],
+               ['prim', 'selProportional', ['frac', 1, 1], [[1, 0], ratio(0.02), [1, 0], [0, 0]]],
+               ['prim', 'selProportional', 3, [[1, 0], [1, 0], [1, 0]]],
                ['seq', ['prim', 'mutSwap'], ['prim', 'mutUniform']]]
 
 PROP = C14()
